@@ -4,7 +4,8 @@
    sticky, r_final), Proofs/FragRoundtrip.v (kind_ok, ck_fresh). *)
 From Coq Require Import ZArith List Bool.
 From Verif Require Import Base.Wrap Base.Bytes Gen.GenConsts Gen.GenFrame Model.TypedBuf Model.Messages
-  Model.Crc Model.Frag Model.FragWire Spec.FragSpec Spec.FragOk Proofs.FragWireP Proofs.FragWP Proofs.FragRP Proofs.FragRoundtrip.
+  Model.Crc Model.Frag Model.FragWire Spec.FragSpec Spec.FragOk Proofs.FragWireP Proofs.FragWP Proofs.FragRP Proofs.FragRoundtrip
+  Gen.GenFrameSites Model.FramePool Proofs.FramePoolP.
 Import ListNotations.
 Local Open Scope Z_scope.
 
@@ -141,3 +142,81 @@ Example C01_example_exact_read :
   = Some ([0; 0; 8; 65;66;67;68;69;70;71;72; 0; 0; 0; 4; 78;79;80;81; 0; 0; 0; 3; 120;121;122; 0],
           mkRst c_fragmentingReadComplete 0 [] [] false [] (Some (mkCk 0 0)) 3 3 true).
 Proof. vm_compute. reflexivity. Qed.
+
+(* ---- every FramePool, every NewFrame call site (Model/FramePool.v, Proofs/FramePoolP.v) ----
+   The size theorem C01_frame_bytes takes the room of a fragment from MaxFramePayloadSize.
+   What follows ties that to the code: go2v regenerates on every run, from every non-test
+   file of every package, the table of NewFrame(..) call sites with the VALUE of the argument,
+   the slice bounds inside NewFrame, every other place a Frame is made or re-sliced, every
+   write buffer over a Payload, and every FramePool implementation with what its Get returns
+   and its Release stores (Gen/GenFrameSites.v). *)
+
+(* the tables of this run satisfy the obligations: every NewFrame argument is
+   MaxFramePayloadSize (or, for a frame the function only reads into, at least that); frames
+   are made in NewFrame only; Payload/buffer/headerBuffer are assigned in NewFrame only (or
+   set to nil); write buffers wrap a whole Payload; every pool's Get returns a fresh NewFrame,
+   a frame received from its channel or one taken from its sync.Pool, its Release stores
+   nothing but its parameter (and nothing at all if it clears the frame); the New function of
+   a sync.Pool of frames returns a fresh NewFrame *)
+Theorem C01_frame_sites : frame_sites_ok = true.
+Proof. exact frame_sites_ok_holds. Qed.
+
+(* the FramePool implementations of the repository are exactly the ones the harness engine
+   poolwire / poolget constructs (a new implementation breaks this and must be added there) *)
+Theorem C01_pool_impls_known : map (fun p => fst (fst (fst p))) pool_impls = known_pools.
+Proof. exact pool_impls_known. Qed.
+
+(* EVERY POOL, EVERY SCHEDULE of allocations, Gets (fresh or recycled) and Releases (kept or
+   discarded): a frame returned by any FramePool.Get has len(Payload) = MaxFramePayloadSize
+   at offset FrameHeaderSize of a buffer of MaxFrameSize bytes, header in front *)
+Theorem C01_pool_frames : forall evs w s,
+  pw_run evs pw_init = Some w -> In s (w_got w) ->
+  sh_payload s = c_MaxFramePayloadSize /\ sh_poff s = c_FrameHeaderSize /\
+  sh_header s = c_FrameHeaderSize /\ sh_hoff s = 0 /\ sh_buffer s = c_MaxFrameSize.
+Proof. exact pool_frames_good. Qed.
+
+(* every frame library code holds (receive-only frames of helper packages included) can take a
+   maximal legal frame *)
+Theorem C01_live_frames_roomy : forall evs w s,
+  pw_run evs pw_init = Some w -> In s (w_live w) ->
+  c_MaxFramePayloadSize <= sh_payload s /\ sh_poff s = c_FrameHeaderSize /\ sh_poff s + sh_payload s <= sh_buffer s.
+Proof. exact live_frames_roomy. Qed.
+
+(* the size clause FOR EVERY POOL: in a frame from any pool, a fragment whose chunks fit the
+   room newFragment leaves (len(frame.Payload) - flags - message header - checksum type -
+   checksum) is a frame of at most 65535 bytes; the size flushFragment stamps,
+   SetPayloadSize(uint16(BytesWritten)), does not wrap and equals the bytes Frame.WriteOut
+   writes (within the buffer); the receiver's PayloadSize gives back the payload length *)
+Theorem C01_frame_bytes_every_pool : forall evs w s msghdr ck f,
+  pw_run evs pw_init = Some w -> In s (w_got w) ->
+  chunks_size (f_chunks f) <= frame_room s (zlen msghdr) (ck_size ck) -> zlen (f_ck f) = ck_size ck ->
+  let n := zlen (enc_frag_payload msghdr f) in
+  c_FrameHeaderSize + n <= c_MaxFrameSize /\
+  SetPayloadSize (wrapU 16 n) = c_FrameHeaderSize + n /\
+  SetPayloadSize (wrapU 16 n) <= sh_buffer s /\
+  PayloadSize (SetPayloadSize (wrapU 16 n)) = n /\
+  n <= sh_payload s.
+Proof. exact every_pool_frame_bytes. Qed.
+
+Print Assumptions C01_frame_sites.
+Print Assumptions C01_pool_frames.
+Print Assumptions C01_live_frames_roomy.
+Print Assumptions C01_frame_bytes_every_pool.
+
+(* non-vacuity: a schedule in which each of the four pools hands out frames -- checked pool
+   fresh; channel pool fresh, released and kept, recycled; disabled pool fresh; sync pool New,
+   released and kept, recycled -- is enabled and yields six frames *)
+Example C01_example_pools :
+  let a := first_plain_site in
+  match pw_run [EGet 0 0 a; EGet 1 0 a; ERelease 1 0 true; EGet 1 1 0; EGet 2 0 a;
+               EGet 3 3 a; ERelease 3 0 true; EGet 3 2 0] pw_init with
+  | Some w => map sh_payload (w_got w) = [65519; 65519; 65519; 65519; 65519; 65519] /\ length (w_store w) = 0%nat
+  | None => False
+  end.
+Proof. vm_compute. split; reflexivity. Qed.
+(* why the argument of NewFrame matters: NewFrame(MaxFrameSize) gives a 65535-byte Payload in a
+   65551-byte buffer, and a fragment filling it is stamped with the size 15 *)
+Example C01_example_oversized_frame_wraps :
+  new_frame c_MaxFrameSize false = Some (mkShape 65551 16 65535 0 16 false) /\
+  SetPayloadSize (wrapU 16 65535) = 15.
+Proof. exact oversized_frame_wraps. Qed.
